@@ -109,6 +109,9 @@ mod vk_iter {
     #[kani::stub(std::sync::atomic::Atomic::<usize>::store, a_store)]
     #[kani::stub(std::sync::atomic::Atomic::<bool>::load, b_load)]
     #[kani::stub(std::sync::atomic::Atomic::<bool>::store, b_store)]
+    #[kani::stub(std::sync::atomic::Atomic::<bool>::swap, b_swap)]
+    #[kani::stub(std::sync::atomic::Atomic::<bool>::fetch_or, b_for)]
+    #[kani::stub(std::sync::atomic::Atomic::<bool>::fetch_and, b_fand)]
     fn iter_next() {
         let (it, k, len) = mk();
         locs(&it);
@@ -139,6 +142,9 @@ mod vk_iter {
     #[kani::stub(std::sync::atomic::Atomic::<usize>::store, a_store)]
     #[kani::stub(std::sync::atomic::Atomic::<bool>::load, b_load)]
     #[kani::stub(std::sync::atomic::Atomic::<bool>::store, b_store)]
+    #[kani::stub(std::sync::atomic::Atomic::<bool>::swap, b_swap)]
+    #[kani::stub(std::sync::atomic::Atomic::<bool>::fetch_or, b_for)]
+    #[kani::stub(std::sync::atomic::Atomic::<bool>::fetch_and, b_fand)]
     fn iter_chunk() {
         let (it, k, len) = mk();
         locs(&it);
@@ -184,6 +190,9 @@ mod vk_iter {
     #[kani::stub(std::sync::atomic::Atomic::<usize>::store, a_store)]
     #[kani::stub(std::sync::atomic::Atomic::<bool>::load, b_load)]
     #[kani::stub(std::sync::atomic::Atomic::<bool>::store, b_store)]
+    #[kani::stub(std::sync::atomic::Atomic::<bool>::swap, b_swap)]
+    #[kani::stub(std::sync::atomic::Atomic::<bool>::fetch_or, b_for)]
+    #[kani::stub(std::sync::atomic::Atomic::<bool>::fetch_and, b_fand)]
     fn iter_chunk_huge() {
         let (it, k, len) = mk();
         locs(&it);
@@ -230,6 +239,9 @@ mod vk_iter {
     #[kani::stub(std::sync::atomic::Atomic::<usize>::store, a_store)]
     #[kani::stub(std::sync::atomic::Atomic::<bool>::load, b_load)]
     #[kani::stub(std::sync::atomic::Atomic::<bool>::store, b_store)]
+    #[kani::stub(std::sync::atomic::Atomic::<bool>::swap, b_swap)]
+    #[kani::stub(std::sync::atomic::Atomic::<bool>::fetch_or, b_for)]
+    #[kani::stub(std::sync::atomic::Atomic::<bool>::fetch_and, b_fand)]
     fn iter_chunk_zero() {
         let (it, _k, _len) = mk();
         locs(&it);
@@ -257,6 +269,9 @@ mod vk_iter {
     #[kani::stub(std::sync::atomic::Atomic::<usize>::store, a_store)]
     #[kani::stub(std::sync::atomic::Atomic::<bool>::load, b_load)]
     #[kani::stub(std::sync::atomic::Atomic::<bool>::store, b_store)]
+    #[kani::stub(std::sync::atomic::Atomic::<bool>::swap, b_swap)]
+    #[kani::stub(std::sync::atomic::Atomic::<bool>::fetch_or, b_for)]
+    #[kani::stub(std::sync::atomic::Atomic::<bool>::fetch_and, b_fand)]
     fn iter_buffered() {
         let (it, k, _len) = mk();
         locs(&it);
@@ -293,6 +308,9 @@ mod vk_iter {
     #[kani::stub(std::sync::atomic::Atomic::<usize>::store, a_store)]
     #[kani::stub(std::sync::atomic::Atomic::<bool>::load, b_load)]
     #[kani::stub(std::sync::atomic::Atomic::<bool>::store, b_store)]
+    #[kani::stub(std::sync::atomic::Atomic::<bool>::swap, b_swap)]
+    #[kani::stub(std::sync::atomic::Atomic::<bool>::fetch_or, b_for)]
+    #[kani::stub(std::sync::atomic::Atomic::<bool>::fetch_and, b_fand)]
     fn iter_skip() {
         let (it, _k, _len) = mk();
         locs(&it);
@@ -322,6 +340,9 @@ mod vk_iter {
     #[kani::stub(std::sync::atomic::Atomic::<usize>::store, a_store)]
     #[kani::stub(std::sync::atomic::Atomic::<bool>::load, b_load)]
     #[kani::stub(std::sync::atomic::Atomic::<bool>::store, b_store)]
+    #[kani::stub(std::sync::atomic::Atomic::<bool>::swap, b_swap)]
+    #[kani::stub(std::sync::atomic::Atomic::<bool>::fetch_or, b_for)]
+    #[kani::stub(std::sync::atomic::Atomic::<bool>::fetch_and, b_fand)]
     fn iter_pull_after_skip() {
         let (it, _k, _len) = mk();
         locs(&it);
@@ -352,6 +373,9 @@ mod vk_iter {
     #[kani::stub(std::sync::atomic::Atomic::<usize>::store, a_store)]
     #[kani::stub(std::sync::atomic::Atomic::<bool>::load, b_load)]
     #[kani::stub(std::sync::atomic::Atomic::<bool>::store, b_store)]
+    #[kani::stub(std::sync::atomic::Atomic::<bool>::swap, b_swap)]
+    #[kani::stub(std::sync::atomic::Atomic::<bool>::fetch_or, b_for)]
+    #[kani::stub(std::sync::atomic::Atomic::<bool>::fetch_and, b_fand)]
     fn iter_len() {
         let (it, k, len) = mk_honest();
         locs(&it);
